@@ -46,6 +46,8 @@ class Ctx:
         self.written_derefs = set()
         self.enumerators = set()  # identifiers that may be translated as uninterpreted enumerator constants (prefix mode)
         self.opaque = set()       # class-typed locals (ByteString iv, ...): never read by translated code, writes to them are skipped
+        self.call_sites = {}      # calls that take an opaque local: one uninterpreted function per call site
+        self.int32 = set()        # locals declared int and initialised from a 64-bit value (kept sign-extended)
 
     def thunk(self, body, vars=()):
         # vars: [(identifier, type)] assigned inside the construct the continuation follows: passed explicitly
@@ -195,6 +197,8 @@ def tr_e(c, e):
             return ('(%s || %s)' % (as_bool(c, e[2]), as_bool(c, e[3])), 'bool')
         cmp_ = {'==': '(%s =? %s)', '!=': '(negb (%s =? %s))', '<': '(%s <? %s)', '<=': '(%s <=? %s)',
                 '>': '(%s <? %s)', '>=': '(%s <=? %s)'}
+        if op in ('<', '<=', '>', '>=', '/', '%', '>>') and mentions([e[2], e[3]], lambda x: x[0] == 'var' and x[1] in c.int32):
+            raise Unsupported('signed comparison / division on an int local')
         if op in cmp_:
             a, ta = tr_e(c, e[2])
             b, tb = tr_e(c, e[3])
@@ -214,6 +218,12 @@ def tr_e(c, e):
             return ('((%s + %s) mod 18446744073709551616)' % (as_N(c, e[2]), as_N(c, e[3])), 'N')
         if op == '%' and e[3][0] == 'int' and e[3][1] > 0:
             return ('(N.modulo %s %d)' % (as_N(c, e[2]), e[3][1]), 'N')
+        if c.havoc and op == '*':
+            return ('((%s * %s) mod 18446744073709551616)' % (as_N(c, e[2]), as_N(c, e[3])), 'N')
+        if c.havoc and op in ('/', '%'):
+            # unsigned 64-bit operands; a zero divisor is undefined behaviour in the C++ and N.div / N.modulo's total
+            # value here: theorems about such a function state the divisor's non-zeroness
+            return ('(%s %s %s)' % ('N.div' if op == '/' else 'N.modulo', as_N(c, e[2]), as_N(c, e[3])), 'N')
         if op == '-':
             return ('((%s + 18446744073709551616 - %s) mod 18446744073709551616)' % (as_N(c, e[2]), as_N(c, e[3])), 'N')
         raise Unsupported('binary ' + op)
@@ -226,8 +236,13 @@ def tr_e(c, e):
         return ('(if %s then %s else %s)' % (as_bool(c, e[1]), a, b), ta)
     if k == 'call':
         name = callee_name(e[1])
-        args = [tr_e(c, a) for a in e[2]]
+        args = [('0', 'N') if (c.havoc and a[0] == 'var' and a[1] in c.opaque) else tr_e(c, a) for a in e[2]]
         rty = c.extern_types.get(name, 'N')
+        if c.havoc and any(a[0] in ('refarg', 'var') and a[1] in c.opaque for a in e[2]):
+            # a class-typed local goes in (by value or by reference) and is rendered as 0: the result may depend on its
+            # content, so this call site gets an uninterpreted function of its own (two calls are not assumed equal)
+            site = c.call_sites.setdefault(repr(e), len(c.call_sites) + 1)
+            name = '%s_at%d' % (name, site)
         if not args:
             c.extern(name, rty)
             return (name, rty)
@@ -456,6 +471,12 @@ def tr_s_inner(c, ss, k_fall, k_break):
         elif e[0] == 'bin' and e[1] == '=' and e[2][0] == 'un' and e[2][1] == '*' and e[2][2][0] == 'var':
             # *pulValueLen = X : an effect on caller memory, tagged with the attribute number 2^64-2
             eff = '(18446744073709551614, %s)' % as_N(c, e[3])
+        elif c.havoc and e[0] == 'call' and e[1][0] == 'var' and e[1][1] == 'memcpy' and len(e[2]) == 3 and e[2][0][0] == 'var' and e[2][0][1] in c.params:
+            # memcpy(pOut, <bytes>, n) into caller memory: an effect tagged 2^64-4 carrying the number of bytes written
+            eff = '(18446744073709551612, %s)' % as_N(c, e[2][2])
+        elif e[0] == 'call' and e[1][0] == 'field' and e[1][2].split('::')[-1] == 'resetOp' and not e[2]:
+            # session->resetOp(): the active operation ends; an effect tagged 2^64-3
+            eff = '(18446744073709551613, 0)'
         if eff is not None:
             return '(let acc := %s :: acc in %s)' % (eff, tr_s(c, rest, k_fall, k_break))
     if c.havoc and k == 'decl' and is_opaque_type(s[2]):
@@ -507,6 +528,13 @@ def tr_s_inner(c, ss, k_fall, k_break):
             return '(let %s := %s in %s)' % (ident(s[1]), 'false' if s[2] in BOOL_TYPES else '0', tr_s(c, rest, k_fall, k_break))
         ty = 'bool' if s[2] in BOOL_TYPES else 'N'
         v = as_bool(c, s[3]) if ty == 'bool' else as_N(c, s[3])
+        if c.havoc and s[2] == 'int' and not (s[3][0] == 'int' and s[3][1] < 2 ** 31):
+            # conversion of an unsigned 64-bit value to int, kept sign-extended to 64 bits (so that later arithmetic with
+            # size_t operands, which converts the int to size_t, is the same arithmetic mod 2^64)
+            v = '(let i32 := (%s) mod 4294967296 in if i32 <? 2147483648 then i32 else i32 + 18446744069414584320)' % v
+            c.int32.add(s[1])
+        elif c.havoc and s[2] in ('unsigned int', 'uint32_t') and s[3][0] != 'int':
+            v = '((%s) mod 4294967296)' % v
         c.types[s[1]] = ty
         return '(let %s := %s in %s)' % (ident(s[1]), v, tr_s(c, rest, k_fall, k_break))
     if c.havoc and k in ('for', 'while', 'do'):
@@ -736,6 +764,7 @@ def translate(name, params, ptypes, ret_type, body, consts, extern_types=None, d
     c.rest_args = tuple(rest_args)
     c.body_text = repr(body)
     plist = []
+    c.params = set(params)
     for p, t in zip(params, ptypes):
         if p in drop_params or p == '_' or not p:
             continue
